@@ -37,6 +37,18 @@ struct Fiber {
     void* poisoned = nullptr;
     std::size_t poisoned_len = 0;
     char sync_create = 0, sync_exit = 0;  // addresses used for tsan acquire/release
+    int quiet = 0;  // depth of KernelQuiet scopes (ThreadSanitizer ignores the kernel's own memory traffic)
+};
+
+// While the simulated kernel moves bytes between its own buffers and the caller's, ThreadSanitizer must not
+// treat those copies (and the allocation/free of segments by different fibers) as accesses of the simulated
+// program: they are the kernel's. The scope is suspended across fiber switches, so a parked or abandoned
+// fiber never holds it.
+struct KernelQuiet {
+    KernelQuiet();
+    ~KernelQuiet();
+    KernelQuiet(const KernelQuiet&) = delete;
+    KernelQuiet& operator=(const KernelQuiet&) = delete;
 };
 
 struct Proc {
